@@ -73,6 +73,12 @@ Fixpoint count_blank_aux (bs : bytes) (n : N) : option N :=
 Definition count_spaces_from_left (bs : bytes) : N :=
   match count_blank_aux bs 0 with Some n => n | None => 0%N end.
 
+(* indentation (errors/document.go, seventh-round fix): the number of blanks the line begins with - all of it for a line of
+   blanks only (TrimSpacesFromLeft / CountSpacesFromLeft treat such a line as having no blanks at all, and the count ran
+   on into the following lines) *)
+Fixpoint indentation (bs : bytes) : nat :=
+  match bs with c :: r => if is_blank c then S (indentation r) else O | [] => O end.
+
 Definition slice (content : bytes) (b e : N) : bytes :=
   firstn (N.to_nat (e - b)) (skipn (N.to_nat b) content).
 
@@ -88,7 +94,8 @@ Definition source_substring (content : bytes) (p : N) : bytes :=
     let b := line_begin nl content p in
     let e := line_end nl content p in
     (* fix 129ea9b: the indentation is removed first, only the visible text counts against the 200 bytes *)
-    let t := trim_spaces_from_left (slice content b e) in
+    let line := slice content b e in
+    let t := skipn (indentation line) line in
     if Nat.ltb 200 (length t) then firstn 197 t ++ dots else t
   end.
 
@@ -96,7 +103,8 @@ Definition source_substring (content : bytes) (p : N) : bytes :=
 Definition caret_offset (content : bytes) (p : N) : N :=
   let nl := detect_nl content in
   let b := line_begin nl content p in
-  let spaces := count_spaces_from_left (skipn (N.to_nat b) content) in
+  let e := line_end nl content p in
+  let spaces := N.of_nat (indentation (slice content b e)) in
   Z.to_N (Z.of_N p - Z.of_N b - Z.of_N spaces).
 
 Inductive rendered :=
